@@ -14,7 +14,9 @@ EXPLANATION = (
     "no clock read or HAL result, which is what keeps alarms on the t0 + k*P grid and catches an overrun up; only __init__ and wait "
     "write the expiry; C16.M1 typestate {live, freed}: free()/__exit__/__del__ on a live object emit stopNotifier(h) then "
     "cleanNotifier(h) once; on a freed object free() and wait() emit no HAL call at all (wait returns immediately).  Induction "
-    "(DESIGN.md): expiry after k waits is t0 + (k+1)P; with the HAL fact the k-th wait returns at max(t0 + kP, call time)."
+    "(DESIGN.md): expiry after k waits is t0 + (k+1)P; with the HAL fact the k-th wait returns at max(t0 + kP, call time).  If no object "
+    "field holds the expiry (state kept elsewhere, e.g. in a suspended generator) the same equations are decided for the first four waits "
+    "of one object and the evidence says so (coverage key 'mode')."
 )
 RULE = "one obligation per path of __init__/wait/free (symbolic fields) and per typestate transition"
 EXHAUSTIVE = True
@@ -72,6 +74,10 @@ def check(ctx):
     # roles
     hfield = [k for k, v in o.fields.items() if isinstance(v, Ext) and "initializeNotifier" in v.path]
     efield = [k for k, v in o.fields.items() if arm and not isinstance(v, (Ext, bool)) and v is not None and _same(v, arm[0].args[1])]
+    if len(hfield) == 1 and not efield and not ctx.violations:
+        # the next alarm time is not held in a field of the object (e.g. inside a suspended generator): the inductive
+        # step has nothing to range over; the grid is decided for the first waits of one object instead
+        return bounded(ctx, K, p, site, hfield[0], arm, clocks)
     if len(hfield) != 1 or len(efield) != 1:
         raise AnalysisError(f"cannot infer the handle/expiry fields of NotifierDelay (handle candidates {hfield}, expiry candidates {efield})")
     hf, ef = hfield[0], efield[0]
@@ -175,6 +181,76 @@ def check(ctx):
                     pass
         ctx.add("typestate_sequences", 1)
     ctx.sample({"wait": "E,P symbolic", "hal": ["waitForNotifierAlarm(h)", "updateNotifierAlarm(h, E+P)"]})
+
+
+def bounded(ctx, K, p, site, hf, arm0, clocks0):
+    """O2/M1 without an expiry field: one object, N waits in a row; alarm k must be alarm k-1 plus the period of the first alarm"""
+    N = 4
+    ctx.cov["mode"] = f"expiry not held in an object field: alarms decided for the first {N} waits of one object (t0 + k*P, k <= {N + 1}), not by induction"
+
+    def run(it, w):
+        obj = it.call(K, [p], {})
+        n0 = len(it.trace)
+        per = []
+        for _ in range(N):
+            n1 = len(it.trace)
+            it.call(it.getattr(obj, "wait"), [], {})
+            per.append(it.trace[n1:])
+        return obj, it.trace[:n0], per
+
+    paths = [q for q in fn.all_paths(ctx, run) if q.outcome == "return"]
+    ctx.add("paths", len(paths))
+    ctx.floor("paths of repeated wait()", len(paths), 1)
+    for q in paths:
+        obj, tr0, per = q.value
+        a0 = [e for e in hal(tr0) if e.name == "hal.updateNotifierAlarm"]
+        us = [e.extra for e in tr0 if e.kind == "clock" and e.extra.tag[1] == "us"]
+        if len(a0) != 1 or not us:
+            continue  # judged by O1
+        prev = a0[0].args[1]
+        P = Lin.of(prev).add(us[-1], -1).simplify()
+        cond = [f"{a[2]!r}<0 is {v}" for a, v, _ in q.path if a[0] == "lt0" and fn.syms_in(a[2]) != {p}]
+        ctx.require(not cond, "C16.O2", "wait() does not branch on time", f"wait() branches on {cond}: the alarm time depends on when the loop body finished", site=site("wait"), key="C16.O2|branch")
+        for k, tr in enumerate(per):
+            hs = hal(tr)
+            names = [e.name for e in hs]
+            ok_seq = names == ["hal.waitForNotifierAlarm", "hal.updateNotifierAlarm"] and all(isinstance(e.args[0], Ext) and "initializeNotifier" in e.args[0].path for e in hs)
+            ctx.require(ok_seq, "C16.O2", f"wait #{k + 1}: waitForNotifierAlarm(h) then updateNotifierAlarm(h, .)", f"wait #{k + 1} on a live object makes the HAL calls {names}; expected waitForNotifierAlarm(h) ; updateNotifierAlarm(h, expiry)", site=site("wait"), key="C16.O2|seq")
+            if not ok_seq:
+                break
+            t = hs[1].args[1]
+            good = not isinstance(t, Ext) and not isinstance(prev, Ext) and Lin.of(t) == Lin.of(prev).add(P)
+            ctx.require(good, "C16.O2", f"alarm {k + 2} == alarm {k + 1} + P", f"wait #{k + 1} re-arms the alarm at {t!r}; expected the previous alarm {prev!r} plus one period {P!r}, with no clock read or HAL result in it", site=site("wait"), key="C16.O2|grid")
+            prev = t
+    seqs = [("free",), ("free", "wait"), ("free", "free"), ("__exit__", "wait"), ("__del__", "wait"), ("wait", "free", "wait", "free"), ("__exit__", "free")]
+    for seq in seqs:
+        def run_seq(it, w, seq=seq):
+            obj = it.call(K, [p], {})
+            out = []
+            for m in seq:
+                n0 = len(it.trace)
+                r = it.call(it.getattr(obj, m), [None, None, None] if m == "__exit__" else [], {})
+                out.append((m, hal(it.trace[n0:]), r))
+            return obj, out
+
+        for q in fn.all_paths(ctx, run_seq):
+            if q.outcome != "return":
+                if q.outcome == "raise" and any(a[0] == "lt0" and fn.syms_in(a[2]) == {p} and v for a, v, _ in q.path):
+                    continue
+                ctx.fail("C16.M1", f"sequence {seq} raises {fn.exc_name(q.value) if q.outcome == 'raise' else q.value}", site=site("free"), key=f"C16.M1|{seq}|raise")
+                continue
+            obj, out = q.value
+            phase = "live"
+            for m, hs, r in out:
+                names = [e.name for e in hs]
+                if phase == "live" and m in ("free", "__exit__", "__del__"):
+                    ctx.require(names == ["hal.stopNotifier", "hal.cleanNotifier"], "C16.M1", f"{m}() on a live object: stopNotifier(h); cleanNotifier(h)", f"{m}() on a live NotifierDelay makes the HAL calls {names}; expected stopNotifier(h) then cleanNotifier(h)", site=site("free"), key=f"C16.M1|release|{m}")
+                    if m == "__exit__":
+                        ctx.require(not _truthy(r), "C16.M1", "__exit__ does not swallow exceptions", f"__exit__ returns {r!r}: a true value swallows the exception leaving the with-block", site=site("__exit__"), key="C16.M1|exit")
+                    phase = "freed"
+                elif phase == "freed":
+                    ctx.require(not names, "C16.M1", f"{m}() on a freed object makes no HAL call", f"{m}() after free() still calls {names}", site=site(m), key=f"C16.M1|freed|{m}")
+        ctx.add("typestate_sequences", 1)
 
 
 def _same(a, b):
